@@ -100,6 +100,49 @@ def mul_classes(f, a, b):
     return c
 
 
+def solved_small(rng, f, x, xbits):
+    """Raw value whose product by the small multiplier x generates a carry between two partial products at a chosen limb
+    (lo(a_j*x) + hi(a_{j-1}*x) >= 2^W) and then propagates it through a run of following limbs (sums equal to 2^W - 1),
+    for limb widths W = 64 and 32."""
+    W = rng.choice([64, 64, 32])
+    nl = f.bits // W
+    M = (1 << W) - 1
+    if x < 2 or nl < 3:
+        return None
+    e = (x & -x).bit_length() - 1
+    o = x >> e
+    limbs = [rng.getrandbits(W) for _ in range(nl)]
+    j = rng.randrange(1, nl)
+    limbs[j - 1] = M - rng.choice([0, 0, 1, rng.getrandbits(8)])
+    hi = (limbs[j - 1] * x) >> W
+    if hi == 0:
+        return None
+    # lo(a_j * x) in [2^W - hi, 2^W): generate
+    r = rng.choice([1, hi, rng.randrange(1, hi + 1)])
+    t = ((1 << W) - r) >> e << e
+    if t + hi <= M:
+        return None
+    aj = ((t >> e) * pow(o, -1, 1 << (W - e))) % (1 << (W - e)) | (rng.getrandbits(e) << (W - e) if e else 0)
+    limbs[j] = aj
+    run = 0
+    if e == 0:
+        k = j + 1
+        while k < nl and rng.randrange(3):
+            hk = (limbs[k - 1] * x) >> W
+            limbs[k] = ((M - hk) * pow(x, -1, 1 << W)) & M
+            run += 1
+            k += 1
+    v = 0
+    for i, l in enumerate(limbs):
+        v |= l << (W * i)
+    if f.kind in ("gfgen", "modint"):
+        # Montgomery representation: the limbs chosen above are the internal ones
+        if v >= f.q:
+            return None
+        v = v * pow(1 << (64 * f.nl), -1, f.q) % f.q
+    return v, ["carry-generate-W%d" % W] + (["carry-propagate-run"] if run else []) + (["carry-at-top-limb"] if j + run == nl - 1 else [])
+
+
 def gen_prime(rng, f, n):
     q = f.q
     top = 1 << f.bits
@@ -184,13 +227,24 @@ def gen_prime(rng, f, n):
             a = hostile_raw(rng, f)
             da, va, ca = operand(rng, f, a)
             if "mul_small" in f.caps:
-                x = rng.choice([0, 1, 2, (1 << 32) - 1, (1 << 32) - 2, 1 << 31, (1 << 31) - 1, 1 << 16, 19, 38, rng.getrandbits(32), rng.getrandbits(32) >> rng.randrange(32)])
+                x = rng.choice([0, 1, 2, (1 << 32) - 1, (1 << 32) - 2, 1 << 31, (1 << 31) - 1, 1 << 16, 19, 38, 39081, 156326, 121665, 121666, rng.getrandbits(32),
+                                rng.getrandbits(32) >> rng.randrange(32)])
+                sc = []
+                if rng.randrange(2):
+                    sv = solved_small(rng, f, x, 32)
+                    if sv is not None:
+                        da, va, ca = operand(rng, f, sv[0]); sc = sv[1]
                 out.append(case1(T + "mul_small %s %d" % (da, x), "OK " + f.enc(va * x),
-                                 ["mul_small:x=max" if x == (1 << 32) - 1 else "mul_small:x"] + ["mul_small:" + c for c in ca], "mul_small"))
+                                 ["mul_small:x=max" if x == (1 << 32) - 1 else "mul_small:x"] + ["mul_small:" + c for c in ca + sc], "mul_small"))
             elif "mul_u16" in f.caps:
                 x = rng.choice([0, 1, 2, 65535, 65534, 32768, 977, rng.getrandbits(16)])
+                sc = []
+                if rng.randrange(2):
+                    sv = solved_small(rng, f, x, 16)
+                    if sv is not None:
+                        da, va, ca = operand(rng, f, sv[0]); sc = sv[1]
                 out.append(case1(T + "mul_u16 %s %d" % (da, x), "OK " + f.enc(va * x),
-                                 ["mul_u16:x=max" if x == 65535 else "mul_u16:x"] + ["mul_u16:" + c for c in ca], "mul_u16", only=("!w32",)))
+                                 ["mul_u16:x=max" if x == 65535 else "mul_u16:x"] + ["mul_u16:" + c for c in ca + sc], "mul_u16", only=("!w32",)))
             else:
                 out.append(case1(T + "mul3 " + da, "OK " + f.enc(va * 3), ["mul3:" + c for c in ca], "mul3"))
         elif kind == "from":
